@@ -11,6 +11,7 @@ impl PruneProbe {
 }
 
 // @harness props=C03 tier=quick cost=120 flags=nomem
+// @replay prune_dirs
 // @exec PruneMatcher::matches, WalkEntry::file_type, MatcherIO::{mark_current_dir_to_be_skipped,should_skip_current_dir}
 // @sym world (all file types), follow P/H/L, depth 0..1
 // @bounds one path; depth <= 1
